@@ -11,6 +11,7 @@ package xheap
 //@ func New
 //@   props C05
 //@   requires less != nil && swoF(less, initial)
+//@   before call New[0]: ghost callarg1.want := false
 //@   modifies elems(initial)
 //@   ensures result.inner != nil && fresh(result.inner) && wfX(result) && result.inner.a == initial && result.inner.gen == 0 && !result.inner.indexChanged.tracks
 //@   ensures mapsTo(result.inner) && result.inner.indexChanged.bn == len(initial) && result.inner.indexChanged.gone == -1
@@ -187,3 +188,34 @@ func verifClientPushPeek[T any](h Heap[T], v T) {
 //@   ensures pqInv(h) && !inHeap(h, k)
 //@   ensures len(h.inner.a) == old(len(h.inner.a)) - (old(inHeap(h, k)) ? 1 : 0)
 //@   ensures forall k2 K {h.inner.indexChanged.N[kk(k2)]} :: k2 != k ==> (inHeap(h, k2) <==> old(inHeap(h, k2))) && (inHeap(h, k2) ==> prio(h, k2) == old(prio(h, k2)))
+
+// NewPriorityQueue: the in-place filter keeps the first occurrence of every key (filtered aliases
+// initial[:0]; it never overtakes the read position), the heap is built over it and the
+// notifications of heap.New put every key's index into m.
+//@ pred swoP(less) = (forall a P {less(a, a)} :: !less(a, a))
+//@   && (forall a P, b P, c P {less(a, b), less(b, c)} :: less(a, b) && less(b, c) ==> less(a, c))
+//@   && (forall a P, b P, c P {less(a, b), less(b, c)} :: !less(a, b) && !less(b, c) ==> !less(a, c))
+
+//@ func NewPriorityQueue
+//@   props C05
+//@   requires less != nil && swoP(less)
+//@   modifies elems(initial)
+//@   ghostinit wj := lambda k K :: 0
+//@   ghostinit dom0 := domof(zeroof("map[K]int"))
+//@   loop 0: ghost wj := (len(filtered) > 0 && filtered[len(filtered)-1].K == kp.K) ? store(wj, kp.K, len(filtered) - 1) : wj
+//@   loop 0: invariant h.m != nil && fresh(h.m) && h.inner == nil
+//@   loop 0: invariant arr(filtered) == arr(initial) && off(filtered) == off(initial) && len(filtered) <= idx0 && cap(filtered) == cap(initial) && initial == old(initial)
+//@   loop 0: invariant forall t int {initial[t]} :: idx0 <= t && t < len(initial) ==> initial[t] == old(initial[t])
+//@   loop 0: invariant forall j int {filtered[j]} :: 0 <= j && j < len(filtered) ==> has(h.m, filtered[j].K)
+//@   loop 0: invariant forall j1 int, j2 int {filtered[j1], filtered[j2]} :: 0 <= j1 && j1 < j2 && j2 < len(filtered) ==> filtered[j1].K != filtered[j2].K
+//@   loop 0: invariant forall t int {old(initial[t])} :: 0 <= t && t < idx0 ==> has(h.m, old(initial[t]).K)
+//@   loop 0: invariant forall k K {has(h.m, k)} :: has(h.m, k) ==> 0 <= wj[k] && wj[k] < len(filtered) && filtered[wj[k]].K == k && hint2(wj[k])
+//@   before call New[0]: ghost dom0 := domof(h.m)
+//@   before call New[0]: ghost callarg1.want := true
+//@   after call New[0]: assert forall m0 int {callresult.indexChanged.base[m0]} {hint2(m0)} :: 0 <= m0 && m0 < len(callresult.a) ==> inH(callresult, keyOf(callresult.indexChanged.base[m0])) && keyOf(callresult.indexChanged.base[m0]) == kk(callresult.indexChanged.base[m0].K)
+//@   after call New[0]: assert forall k K {dom0[k]} :: dom0[k] ==> inH(callresult, kk(k))
+//@   after call New[0]: havoc mapof(h.m)
+//@   after call New[0]: assume forall k K {has(h.m, k)} {callresult.indexChanged.N[kk(k)]} :: (has(h.m, k) <==> dom0[k]) && (inH(callresult, kk(k)) ==> has(h.m, k) && h.m[k] == callresult.indexChanged.N[kk(k)])
+//@   after call New[0]: ghost callresult.indexChanged.tracks := true
+//@   ensures pqInv(result) && fresh(result.inner) && fresh(result.m)
+//@   ensures forall t int {old(initial[t])} :: 0 <= t && t < len(initial) ==> inHeap(result, old(initial[t]).K)
